@@ -195,7 +195,14 @@ fn expression_strigify_write<'s, W: FmtWrite>(
             dot_location,
             field_location,
         } => {
-            expression_strigify_write(obj, stringifier, ExpressionLevel::Member)?;
+            if let Expression::LitInt { .. } = &**obj {
+                // `1.a` would be read as a float literal followed by a name
+                stringifier.write_str("(")?;
+                expression_strigify_write(obj, stringifier, ExpressionLevel::Member)?;
+                stringifier.write_str(")")?;
+            } else {
+                expression_strigify_write(obj, stringifier, ExpressionLevel::Member)?;
+            }
             stringifier.write_token(".", None, dot_location)?;
             stringifier.write_token(&field_name, Some(&field_name), field_location)?;
         }
